@@ -195,3 +195,41 @@ def application_outputs_last(rep, rule, m, why, app_attrs=("_protocol",), min_ro
         from .srcmodel import AnalysisError
         raise AnalysisError("%s: fewer rows with application-calling outputs than expected in %s (%d < %d)" % (rule, m.name, n, min_rows))
     return n
+
+
+def fires_deferred_directly(m, name, depth=4):
+    """Call nodes of output `name` that fire a Deferred in place - `<d>.callback(..)` / `<d>.errback(..)` as a call, not as a function
+    handed to eventually(): whoever holds that Deferred (the application, for the input helper's when_wordlist_is_available()) runs
+    its callbacks inside this output"""
+    out = []
+    for c in output_calls(m, name, depth):
+        f = c.func
+        if isinstance(f, ast.Attribute) and f.attr in ("callback", "errback") and isinstance(f.value, ast.Name):
+            out.append(c)
+    return out
+
+
+def reaches_application(prog, m, name, app_attrs=("_protocol",), depth=3, _seen=None):
+    """does output `name` of machine m run application code synchronously: itself (calls_application / fires_deferred_directly), or
+    through an input it feeds to a neighbouring machine (resolved through the wiring) whose row outputs do"""
+    _seen = _seen if _seen is not None else set()
+    key = (m.name, name)
+    if key in _seen or depth < 0:
+        return None
+    _seen.add(key)
+    direct = calls_application(m, name, app_attrs) + fires_deferred_directly(m, name)
+    if direct:
+        return "%s.%s" % (m.name, name)
+    for c in output_calls(m, name):
+        d = dotted(c.func) or ""
+        parts = d.split(".")
+        if len(parts) == 3 and parts[0] == "self":
+            tgt = m.wiring.get(parts[1])
+            m2 = prog.machines.get(tgt) if isinstance(tgt, str) else None
+            if m2 is not None and parts[2] in m2.inputs:
+                for row in m2.rows_on(parts[2]):
+                    for o2 in row.outputs:
+                        r = reaches_application(prog, m2, o2, app_attrs, depth - 1, _seen)
+                        if r:
+                            return "%s -> %s" % ("%s.%s" % (m.name, name), r)
+    return None
